@@ -1,89 +1,123 @@
-CHECK = {
-    "lean_module": "MidnightZK.Props.C02",
-    "harness": "h-c02",
-    "translators": ["c02_consts"],
-    "level": "proof",
-    "technique": "Lean 4 proofs (a) that the mock checker's verdict is row-level satisfaction (verify, verify_at_rows, assert_satisfied), "
-                 "(b) that the verifier's identity list covers every constraint class exactly once in the order of the Rust code, (c) of the "
-                 "algebraic soundness of each class (gates, permutation with counting bound on bad beta/gamma and NO hypothesis on the labels "
-                 "in the BLS12-381 scalar field, lookup incl. theta-compression, trash) and of the y- and x-combination, (d) that each "
-                 "class's identity POLYNOMIAL (column polynomials, rotations, Lagrange-basis polynomials l_0/l_last/l_blind) vanishes on the "
-                 "domain iff the row rule holds on every row, (e) that the Lagrange values and the plain-instance evaluations of the "
-                 "identity model are the basis / instance-column polynomials evaluated at x (barycentric formula), so a different public "
-                 "input changes the instance evaluation for all but < n challenges x; identity-level correspondence: every value folded by "
-                 "the real verifier (hooked log) is recomputed by the Lean model from the recorded transcript scalars labelled with the "
-                 "Lean schedule model; three-way correspondence real verifier / MockProver / Lean rowSat on faulted witnesses and on every "
-                 "edited public-input position of generated circuits",
-    "rule": "circuit-family members x (honest | every advice assignment x {+1, 0, neighbour, random} sampled | EVERY position of every instance "
-            "column x {+1, -1, swap with next position} | two circuits proven together); per assignment one `sat` case = MockProver verdict + "
-            "real prove/verify verdict + Lean rowSat on the dumped constraint system and table, one `satrows` case = MockProver::verify_at_rows "
-            "on a seeded random subset of gate rows / lookup-input rows + whether assert_satisfied returns vs Lean mockOKAt / mockOK, and "
-            "(whenever the prover yields a proof, accepted or not) one `ids` case = the hooked identity values, y, x^n, expected_h_eval of "
-            "the real verifier vs the Lean identity model run on the dumped constraint system, the plain instance values and the ordered "
-            "scalars read / challenges squeezed by the verifier; per member one `csparams` case = cs.degree(), cs.blinding_factors(), number "
-            "of permutation column sets, usable rows vs the Lean mirror computed from the dumped expressions and query lists only; `domain` "
-            "cases = omega and DELTA per k; distinct = distinct request lines",
-    "explanation": "ids_cover: for every constraint-system shape the class tags of the verifier's identity list (Model/C02/Identities.lean, "
-                   "a mirror of evaluate_identities / permutation.rs expressions / lookup.rs / trash.rs / l_i_range / PartiallyEvaluated::verify) "
-                   "are every gate polynomial, permFirst, permLast, permChain s, permProduct s, five rules per lookup, one per trash argument, "
-                   "each once, in code order (its hypothesis 3 <= degree is csDegree_ge_three for the mirrored degree()). The model is tied "
-                   "to the code on every run: the harness runs the real verifier with the verif-hooks identity log and a value-recording "
-                   "transcript; the Lean driver labels the scalar stream with Model/C01/Schedule.lean verifierSchedule, recomputes x^n, l_0, "
-                   "l_last, l_blind (omega derived from the generated ROOT_OF_UNITY), the instance evaluations of plain columns and every "
-                   "identity value, and must reproduce count, order, values and expected_h_eval for honest, faulted, public-input-edited and "
-                   "two-proof runs. Row-level meaning: gate_identity_rows, perm_argument_sound (rows of permExpressionsRow zero => copy "
-                   "constraints, for all but (2N)^2 beta and 2N gamma per beta; stated in ZMod r with delta = DELTA, omega = the domain "
-                   "generator of any k <= S: the distinctness of the labels delta^c*omega^i is now the theorem perm_labels_injective, proved "
-                   "from the generated constants: delta_orderOf (order of DELTA is exactly t=(r-1)/2^S, certificate over the 11 prime "
-                   "factors of t), omega_primitive (omega has order 2^k), r prime by the Lucas certificate of C10; the any-field version with "
-                   "the hypothesis is kept as perm_argument_sound_generic), lookup_argument_sound(+_tuples), trash_argument_sound, "
-                   "y_combination_sound, x_evaluation_sound, verifier_equation_sound (single equation at x,y => every identity vanishes on "
-                   "the domain). Polynomial level (indicator behaviour of l_0/l_last/l_blind no longer assumed): "
-                   "perm_/lookup_/trash_/gate_identity_vanishes_on_domain_iff_rows: the identity polynomials built from the column "
-                   "polynomials of degree < n, their rotations and the Lagrange-basis polynomials indPoly (1 on row 0 / u / >u, 0 elsewhere, "
-                   "from the interpolation property) evaluate at omega^i to the row expressions, hence vanish on the domain iff the row rules "
-                   "hold; perm_argument_sound_polys chains it with perm_argument_sound; lagrange_evals_are_basis_polys: the naturals "
-                   "l_0,l_last,l_blind of the identity model (mirror of l_i_range, validated through the identity values) are indPoly "
-                   "evaluated at x for every k <= S and x off the domain (barycentric formula, imported from C01's domain lemmas). Public "
-                   "inputs: instance_eval_is_column_poly (the model's instance_evals entry of a plain column is the column polynomial of the "
-                   "GIVEN public inputs at omega^rot*x), public_input_changes_instance_eval (two public inputs differing on a row agree at "
-                   "fewer than n points x). perm_/lookup_/trash_identity_is_row_rule: the identity model's values cast to ZMod p ARE the "
-                   "values of permExpressionsRow / lookupExpressionsRow / trashExpressionRow when the evaluations are row values. mock_agrees: "
-                   "MockProver's verdict equals the plain row-level meaning for every constraint system and assignment; "
-                   "mock_at_usable_rows / mock_at_rows_weaker / mock_at_rows_unsound_witness: verify = verify_at_rows on all usable rows, "
-                   "fewer rows only accept more, and can accept what the verifier rejects. Mirrored parts of MockProver::verify: gates and "
-                   "additive-selector constraints on usable + blinding rows with poison arithmetic, lookups with the fill-row shortcut, copy "
-                   "constraints REQUESTED by the circuit (advice-advice, advice-constant (fixed cell), advice-instance cell, recorded "
-                   "independently of the keygen Assembly), verify_at_rows row subsets, assert_satisfied = panic iff Err; NOT mirrored: the "
-                   "cell-assignment checks (CellNotAssigned / InstanceCellNotAssigned; such cases are skipped and counted) and the content / "
-                   "order of the error list (only the classes gate-or-trash / lookup / permutation are compared). The Lean evaluator, the "
-                   "mock verdict and the real verifier's verdict must coincide on every faulted witness and every edited public input. "
-                   "The identity-value and csparams comparisons are deliberately tight (any change of an identity value, of degree() or of "
-                   "blinding_factors() fires even if benign for soundness, e.g. an extra power of the trash challenge on both sides); "
-                   "re-association or reordering of independent statements that leaves every folded value unchanged does not fire.",
-    "trusted_base": ["knowledge soundness of PLONK+KZG (AGM/ROM) is not modelled: that the evaluations read from the proof are evaluations of "
-                     "the committed polynomials (KZG binding, C14) and that beta, gamma, theta, trash challenge, y, x are uniformly random "
-                     "(Fiat-Shamir) is assumed",
-                     "harness/c02/src/valrec.rs (value-recording transcript: squeezed challenges are learnt from a clone of the inner transcript) "
-                     "and the verif-hooks identity log print what the verifier reads and folds",
-                     "harness/common/src/copyrec.rs records the copy constraints the circuit requests; csdump.rs prints constraint system and table"],
-    "assumptions": ["a violated constraint makes the real verifier reject except with negligible probability over the Fiat-Shamir challenges "
-                    "(the theorems bound the number of bad challenges per argument; the union bound over the transcript and the extraction of "
-                    "the committed polynomials are not mechanised)"],
-    "level_text": "Kernel-checked theorems: the checker logic (mock = row satisfaction, fill-row shortcut sound, verify_at_rows weaker, D2 "
-                  "witness); ids_cover for every constraint-system shape; per-class algebraic soundness at row level with explicit counts of "
-                  "bad challenges (permutation - with the distinctness of the labels delta^c*omega^i PROVED for the BLS12-381 scalar field, "
-                  "every k <= 32 and every column count <= (r-1)/2^32 -, lookup incl. theta step, trash); for each of the four classes the "
-                  "identity polynomial vanishes on the domain iff the row rule holds on every row (l_0/l_last/l_blind as Lagrange-basis "
-                  "polynomials, proved); the model's l_0(x), l_last(x), l_blind(x) and plain-instance evaluations are those polynomials / the "
-                  "public-input column polynomial evaluated off the domain; a different public input changes the instance evaluation for all "
-                  "but < n points; y/x-combination and the single-equation chain; order of DELTA, primitivity of omega, DELTA = GENERATOR^(2^S); "
-                  "degree() >= 3, blinding_factors() >= 5 + #trash. The identity model is validated against the hooked identity log of the "
-                  "real verifier (count, order, every value, expected_h_eval) on every honest, faulted, public-input-edited and two-proof run; "
-                  "degree()/blinding_factors() against a Lean mirror on every member; the row-level semantics against MockProver (verify, "
-                  "verify_at_rows, assert_satisfied) and the real verifier on every sampled fault and every edited public-input position",
-    "level_note": "partial: knowledge soundness (extraction of the committed polynomials, KZG binding, Fiat-Shamir/ROM, union bound over the "
-                  "challenges) is not mechanised; gate_identity_vanishes_on_domain_iff_rows assumes canonical (< p) field-element cells on the "
-                  "queried positions; MockProver's cell-assignment checks are outside the Lean mock model",
-    "timeout": {"quick": 1500, "thorough": 7200, "search": 2400},
-}
+CHECK = {'lean_module': 'MidnightZK.Props.C02',
+ 'harness': 'h-c02',
+ 'translators': ['c02_consts'],
+ 'level': 'proof',
+ 'technique': "Lean 4 proofs (a) that the mock checker's verdict is row-level satisfaction (verify, verify_at_rows, assert_satisfied), (b) "
+              "that the verifier's identity list covers every constraint class exactly once in the order of the Rust code, (c) of the "
+              'algebraic soundness of each class (gates, permutation with counting bound on bad beta/gamma and NO hypothesis on the labels '
+              'in the BLS12-381 scalar field, lookup incl. theta-compression, trash) and of the y- and x-combination, (d) that each '
+              "class's identity POLYNOMIAL (column polynomials, rotations, Lagrange-basis polynomials l_0/l_last/l_blind) vanishes on the "
+              'domain iff the row rule holds on every row, (e) that the Lagrange values and the plain-instance evaluations of the identity '
+              'model are the basis / instance-column polynomials evaluated at x (barycentric formula), so a different public input changes '
+              'the instance evaluation for all but < n challenges x; identity-level correspondence: every value folded by the real '
+              'verifier (hooked log) is recomputed by the Lean model from the recorded transcript scalars labelled with the Lean schedule '
+              'model; three-way correspondence real verifier / MockProver / Lean rowSat on faulted witnesses and on every edited '
+              "public-input position of generated circuits; key generation's fixed columns (lookup tables with their fill_from_row "
+              "padding) vs the mock checker's vs Lean mirrors of both assign_fixed / fill_from_row implementations replaying the writes "
+              'the circuit requested; the poisoned rows of MockProver::run vs a Lean mirror; lookup-membership sweep with values outside '
+              'every table (0, filler-1, last+1); a fixed-column-switched gate on / next to the last usable row reading the first unusable '
+              'row',
+ 'rule': 'circuit-family members x (honest | every advice assignment x {+1, 0, neighbour, random} sampled | EVERY position of every '
+         'instance column x {+1, -1, swap with next position} | two circuits proven together); per assignment one `sat` case = MockProver '
+         'verdict + real prove/verify verdict + Lean rowSat on the dumped constraint system and table, one `satrows` case = '
+         'MockProver::verify_at_rows on a seeded random subset of gate rows / lookup-input rows + whether assert_satisfied returns vs Lean '
+         'mockOKAt / mockOK, and (whenever the prover yields a proof, accepted or not) one `ids` case = the hooked identity values, y, '
+         'x^n, expected_h_eval of the real verifier vs the Lean identity model run on the dumped constraint system, the plain instance '
+         'values and the ordered scalars read / challenges squeezed by the verifier; per member one `csparams` case = cs.degree(), '
+         'cs.blinding_factors(), number of permutation column sets, usable rows vs the Lean mirror computed from the dumped expressions '
+         'and query lists only; `domain` cases = omega and DELTA per k; distinct = distinct request lines; EXTENDED FAMILY (new enum '
+         'variants, C01/C02 only): Shapes(g) gates (expression shapes), MixedDeg (two-column lookup_any, degree 6 from different columns), '
+         'NoZero (table {5..} without zero row, filler 5), LastRow{row,rot} (gate f*(la0+la1(rot)) switched by a plain fixed column on ONE '
+         'absolute row: last usable row - back, rot in {1,2}; back < rot reads an unusable row: all three verdicts reject, the mock by '
+         'ConstraintPoisoned; back >= rot: all accept); per member one `fixedcols` case = the writes requested on the fixed columns '
+         '(FixedRecorder: assign_fixed / fill_from_row with absolute rows and values) -> pk.fixed_values and MockProver::fixed() rendered '
+         'row by row vs the two Lean replays, one `mockinit` case = rows of every advice column holding Poison(i) after MockProver::run vs '
+         'the Lean mirror; `fault-lookup-outside` = for EVERY lookup of the member one input cell set to values outside the table (NoZero: '
+         '0, 4, 5+2^bits, 2^40; others: just above the table, 2^40): verifier, mock and Lean must all reject (extra oracle)',
+ 'explanation': "ids_cover: for every constraint-system shape the class tags of the verifier's identity list (Model/C02/Identities.lean, a "
+                'mirror of evaluate_identities / permutation.rs expressions / lookup.rs / trash.rs / l_i_range / '
+                'PartiallyEvaluated::verify) are every gate polynomial, permFirst, permLast, permChain s, permProduct s, five rules per '
+                'lookup, one per trash argument, each once, in code order (its hypothesis 3 <= degree is csDegree_ge_three for the '
+                'mirrored degree()). The model is tied to the code on every run: the harness runs the real verifier with the verif-hooks '
+                'identity log and a value-recording transcript; the Lean driver labels the scalar stream with Model/C01/Schedule.lean '
+                'verifierSchedule, recomputes x^n, l_0, l_last, l_blind (omega derived from the generated ROOT_OF_UNITY), the instance '
+                'evaluations of plain columns and every identity value, and must reproduce count, order, values and expected_h_eval for '
+                'honest, faulted, public-input-edited and two-proof runs. Row-level meaning: gate_identity_rows, perm_argument_sound (rows '
+                'of permExpressionsRow zero => copy constraints, for all but (2N)^2 beta and 2N gamma per beta; stated in ZMod r with '
+                'delta = DELTA, omega = the domain generator of any k <= S: the distinctness of the labels delta^c*omega^i is now the '
+                'theorem perm_labels_injective, proved from the generated constants: delta_orderOf (order of DELTA is exactly t=(r-1)/2^S, '
+                'certificate over the 11 prime factors of t), omega_primitive (omega has order 2^k), r prime by the Lucas certificate of '
+                'C10; the any-field version with the hypothesis is kept as perm_argument_sound_generic), lookup_argument_sound(+_tuples), '
+                'trash_argument_sound, y_combination_sound, x_evaluation_sound, verifier_equation_sound (single equation at x,y => every '
+                'identity vanishes on the domain). Polynomial level (indicator behaviour of l_0/l_last/l_blind no longer assumed): '
+                'perm_/lookup_/trash_/gate_identity_vanishes_on_domain_iff_rows: the identity polynomials built from the column '
+                'polynomials of degree < n, their rotations and the Lagrange-basis polynomials indPoly (1 on row 0 / u / >u, 0 elsewhere, '
+                'from the interpolation property) evaluate at omega^i to the row expressions, hence vanish on the domain iff the row rules '
+                'hold; perm_argument_sound_polys chains it with perm_argument_sound; lagrange_evals_are_basis_polys: the naturals '
+                'l_0,l_last,l_blind of the identity model (mirror of l_i_range, validated through the identity values) are indPoly '
+                "evaluated at x for every k <= S and x off the domain (barycentric formula, imported from C01's domain lemmas). Public "
+                "inputs: instance_eval_is_column_poly (the model's instance_evals entry of a plain column is the column polynomial of the "
+                'GIVEN public inputs at omega^rot*x), public_input_changes_instance_eval (two public inputs differing on a row agree at '
+                "fewer than n points x). perm_/lookup_/trash_identity_is_row_rule: the identity model's values cast to ZMod p ARE the "
+                'values of permExpressionsRow / lookupExpressionsRow / trashExpressionRow when the evaluations are row values. '
+                "mock_agrees: MockProver's verdict equals the plain row-level meaning for every constraint system and assignment; "
+                'mock_at_usable_rows / mock_at_rows_weaker / mock_at_rows_unsound_witness: verify = verify_at_rows on all usable rows, '
+                'fewer rows only accept more, and can accept what the verifier rejects. Mirrored parts of MockProver::verify: gates and '
+                'additive-selector constraints on usable + blinding rows with poison arithmetic, lookups with the fill-row shortcut, copy '
+                'constraints REQUESTED by the circuit (advice-advice, advice-constant (fixed cell), advice-instance cell, recorded '
+                'independently of the keygen Assembly), verify_at_rows row subsets, assert_satisfied = panic iff Err; NOT mirrored: the '
+                'cell-assignment checks (CellNotAssigned / InstanceCellNotAssigned; such cases are skipped and counted) and the content / '
+                'order of the error list (only the classes gate-or-trash / lookup / permutation are compared). The Lean evaluator, the '
+                "mock verdict and the real verifier's verdict must coincide on every faulted witness and every edited public input. The "
+                'identity-value and csparams comparisons are deliberately tight (any change of an identity value, of degree() or of '
+                'blinding_factors() fires even if benign for soundness, e.g. an extra power of the trash challenge on both sides); '
+                're-association or reordering of independent statements that leaves every folded value unchanged does not fire. NEW (round '
+                '5): fill_covers_usable_rows (after fill_from_row row i holds the filler iff from_row <= i < usable - the last usable row '
+                'included -, every other row untouched; both keygen.rs Assembly::fill_from_row and MockProver::fill_from_row are this '
+                'loop), table_values_after_fill (table values on the usable rows = assigned rows + filler: 0 is a table value only if '
+                'assigned or the filler), keygen_mock_fixed_columns_agree (for EVERY sequence of requested writes the two mirrors produce '
+                'the same columns and refuse the same writes), mock_poisons_unusable_rows / mock_assign_preserves_poison (Poison(i) '
+                'exactly on rows >= usable, never removed), gate_reading_poison_rejected / gate_reading_poison_fails_check (a '
+                'fixed-column-switched gate active on a checked row that reads a poisoned cell makes rowSat and mockOK false), '
+                'degree_covers_identities (every identity class has degree <= the mirrored degree(); the lookup product rule uses max deg '
+                'input + max deg table), per_column_degree_formula_insufficient, quotient_fits_pieces / quotient_overflows_pieces, '
+                'gate_poly_degree_covered (natDegree of the gate polynomial over the column polynomials < n + (n-1)(degree-1)). Oracles '
+                'added: key generation and the mock checker hold the same fixed columns; a lookup value outside the table is rejected by '
+                'all three.',
+ 'trusted_base': ['knowledge soundness of PLONK+KZG (AGM/ROM) is not modelled: that the evaluations read from the proof are evaluations of '
+                  'the committed polynomials (KZG binding, C14) and that beta, gamma, theta, trash challenge, y, x are uniformly random '
+                  '(Fiat-Shamir) is assumed',
+                  'harness/c02/src/valrec.rs (value-recording transcript: squeezed challenges are learnt from a clone of the inner '
+                  'transcript) and the verif-hooks identity log print what the verifier reads and folds',
+                  'harness/common/src/copyrec.rs records the copy constraints the circuit requests; csdump.rs prints constraint system and '
+                  'table',
+                  "harness/common/src/fixedrec.rs records the fixed-column writes the circuit requests (through the circuit's real floor "
+                  'planner, independent of keygen Assembly and MockProver); ProvingKey::verif_derived_parts exposes pk.fixed_values'],
+ 'assumptions': ['a violated constraint makes the real verifier reject except with negligible probability over the Fiat-Shamir challenges '
+                 '(the theorems bound the number of bad challenges per argument; the union bound over the transcript and the extraction of '
+                 'the committed polynomials are not mechanised)'],
+ 'level_text': 'Kernel-checked theorems: the checker logic (mock = row satisfaction, fill-row shortcut sound, verify_at_rows weaker, D2 '
+               'witness); ids_cover for every constraint-system shape; per-class algebraic soundness at row level with explicit counts of '
+               'bad challenges (permutation - with the distinctness of the labels delta^c*omega^i PROVED for the BLS12-381 scalar field, '
+               'every k <= 32 and every column count <= (r-1)/2^32 -, lookup incl. theta step, trash); for each of the four classes the '
+               'identity polynomial vanishes on the domain iff the row rule holds on every row (l_0/l_last/l_blind as Lagrange-basis '
+               "polynomials, proved); the model's l_0(x), l_last(x), l_blind(x) and plain-instance evaluations are those polynomials / the "
+               'public-input column polynomial evaluated off the domain; a different public input changes the instance evaluation for all '
+               'but < n points; y/x-combination and the single-equation chain; order of DELTA, primitivity of omega, DELTA = '
+               'GENERATOR^(2^S); degree() >= 3, blinding_factors() >= 5 + #trash. The identity model is validated against the hooked '
+               'identity log of the real verifier (count, order, every value, expected_h_eval) on every honest, faulted, '
+               'public-input-edited and two-proof run; degree()/blinding_factors() against a Lean mirror on every member; the row-level '
+               'semantics against MockProver (verify, verify_at_rows, assert_satisfied) and the real verifier on every sampled fault and '
+               'every edited public-input position; NEW: fill_from_row of key generation and of the mock checker (every usable row from '
+               'from_row holds the filler; both produce the same columns for every sequence of writes), the poisoned rows of '
+               'MockProver::run, rejection of a gate reading a poisoned cell, and degree() covering every identity class are theorems; the '
+               'real pk.fixed_values, MockProver::fixed() and the poisoned rows are compared with the mirrors row by row on every member; '
+               'values outside every lookup table and a fixed-column-switched gate on the last usable row are part of the three-way '
+               'verdict comparison',
+ 'level_note': 'partial: knowledge soundness (extraction of the committed polynomials, KZG binding, Fiat-Shamir/ROM, union bound over the '
+               'challenges) is not mechanised; gate_identity_vanishes_on_domain_iff_rows assumes canonical (< p) field-element cells on '
+               "the queried positions; MockProver's cell-assignment checks are outside the Lean mock model; the fixedcols comparison "
+               'covers the fixed columns the circuit declares (tables, constants, plain fixed columns), not the columns key generation '
+               'derives from selectors (those are observed through the sat / ids lines); the LastRow members are not honest circuits (the '
+               'mock checker itself refuses them) and are used by C02 only',
+ 'timeout': {'quick': 1500, 'thorough': 7200, 'search': 2400}}
